@@ -132,16 +132,6 @@ Section WithKey.
     end.
 End WithKey.
 
-(* ints that survive float(v) in _decode_int *)
-Fixpoint ints_small (v : value) : bool :=
-  match v with
-  | VInt z => Z.abs z <? FLOAT_OVERFLOW
-  | VList vs | VTup vs | VSet vs => forallb ints_small vs
-  | VDict _ kvs => forallb (fun kv => ints_small (fst kv) && ints_small (snd kv)) kvs
-  | VDc _ _ fs => forallb (fun f => ints_small (snd f)) fs
-  | _ => true
-  end.
-
 (* the inputs the first-success rule treats correctly: at every Union position, every member declared
    before the first one the value is an instance of fails to decode the value's encoding *)
 Section UnionSafe.
@@ -203,8 +193,7 @@ Section Lenient.
   Fixpoint lenient (t : ty) (v : value) (p : prim) : Prop :=
     match t with
     | TBool => exists b, v = VBool b /\ (p = PBool b \/ exists s, p = PStr s /\ s2b s = Some b)
-    | TInt => exists z, v = VInt z /\ Z.abs z < FLOAT_OVERFLOW /\
-                        (p = PInt z \/ exists s, p = PStr s /\ parse_int s = Some z)
+    | TInt => exists z, v = VInt z /\ (p = PInt z \/ exists s, p = PStr s /\ parse_int s = Some z)
     | TFloat => exists r, v = VFlt r /\
                           (p = PFlt r \/ (exists s, p = PStr s /\ parse_float s = Ok r)
                            \/ exists z, p = PInt z /\ Z.abs z < FLOAT_INT_EXACT /\ r = float_of_int_repr z)
